@@ -19,7 +19,8 @@ type chainKnobs struct {
 	Revocation  bool
 	Resolver    bool
 	Caveats     bool
-	SecondChain bool // sometimes add a second complete chain
+	SecondChain bool   // sometimes add a second complete chain
+	ForcePolicy string // "": drawn per world; "self": self-issued; "owners": owner table (sometimes naming someone else)
 }
 
 var abilities = []string{"store/add", "store/list", "upload/add", "space/blob/add"}
@@ -114,7 +115,14 @@ func chainWorldIn(r *rand.Rand, id int, seed int64, k chainKnobs, cast *Cast, pr
 		info.Valid = false // RSA issuer on the path, parser only knows Ed25519
 	}
 	// can-issue policy: self-issued, or an owner table (then `with` need not be the owner's DID)
-	switch r.Intn(8) {
+	draw := r.Intn(8)
+	switch k.ForcePolicy {
+	case "self":
+		draw = 7
+	case "owners":
+		draw = []int{0, 2, 3, 3}[r.Intn(4)]
+	}
+	switch draw {
 	case 0, 1:
 		w.Ctx.SelfIssued = false
 		with = pick(r, []string{"https://example.com/bucket", "did:web:space.example", "urn:thing:1"})
